@@ -3,11 +3,11 @@
 # 1. confirm each mutation in a scratch worktree of /repo HEAD (tests unchanged vs baseline, demo 1/0)
 # 2. run our quick check with each patch applied to /repo (always reverted)
 # writes /tmp/mut/res_<Cxx>.json {mN: "<what the check reported>"}
-id=$1; lid=${id,,}; src=/tmp/mut/$lid
+id=$1; suf=${2:-}; lid=${id,,}; src=/tmp/mut/$lid$suf
 echo "== confirm $id"
 tools/confirm_seeded.sh $src $id tests 2>&1 | tail -6
 echo "== check $id"
-echo "{" > /tmp/mut/res_$id.json; first=1
+echo "{" > /tmp/mut/res_$id$suf.json; first=1
 for m in $src/out/m[0-9]; do
   n=$(basename $m)
   out=$(tools/try_patch.sh $m/patch.diff $id 2>&1)
@@ -18,7 +18,7 @@ for m in $src/out/m[0-9]; do
   elif [ "$viol" -gt 0 ]; then res="./check $id --tier quick: VIOLATION no-failing-input-found ($keys)";
   else res="./check $id --tier quick: MISSED (exit 0)"; fi
   echo "$n: $res" | cut -c1-330
-  [ $first -eq 1 ] || echo "," >> /tmp/mut/res_$id.json; first=0
-  printf '"%s": "%s"' "$n" "$(echo $res | sed 's/\\/\\\\/g')" >> /tmp/mut/res_$id.json
+  [ $first -eq 1 ] || echo "," >> /tmp/mut/res_$id$suf.json; first=0
+  printf '"%s": "%s"' "$n" "$(echo $res | sed 's/\\/\\\\/g')" >> /tmp/mut/res_$id$suf.json
 done
-echo "}" >> /tmp/mut/res_$id.json
+echo "}" >> /tmp/mut/res_$id$suf.json
